@@ -267,6 +267,26 @@ def rule_wr_top(cx, rep, port):
         rep.violated(_key(c, 'write') + ' refusal', t.ast, 'reaching the bound does not return False without forwarding')
     else:
         rep.holds(_key(c, 'write') + ' refusal', t.ast, 'refuses (returns False, nothing forwarded) iff NW >= top_count')
+    # a record that was forwarded is reported as taken: the verdict after forwarding is True or the receiver's own verdict - telling the
+    # caller "stop" together with the last permitted record ends the query one record early (what the next record would have
+    # raised - a STRICT LEFT JOIN miss, a bad field - is never evaluated, while the reference port evaluates it)
+    if ps is not None:
+        early = None
+        for q in ps:
+            if q.kind != 'return' or q.value is None:
+                continue
+            fwd = any(isinstance(x, ast.Call) and call_name(x) == 'self.subwriter.write' for e in list(q.env.values()) + q.calls + [q.value] + [t_ for t_, _ in q.conds] for x in ast.walk(e))
+            if not fwd:
+                continue
+            v = q.value
+            if is_false(v) and any(isinstance(x, ast.Call) and call_name(x) == 'self.subwriter.write' for t_, _ in q.conds for x in ast.walk(t_)):
+                continue      # the receiver's refusal handed on
+            if ('self.' + counter) in _dotted_in(v) or 'self.top_count' in _dotted_in(v):
+                early = (q, v)
+        if early:
+            rep.violated(_key(c, 'write') + ' verdict', early[0].node, 'after forwarding a record write() returns `{}`: the caller is told to stop together with the last permitted record, one record earlier than the bound test at the top of write() would'.format(node_text(early[1], 60)))
+        else:
+            rep.holds(_key(c, 'write') + ' verdict', fd, 'a forwarded record is reported as taken (or with the receiver\'s verdict)')
     # the test must come first: no forwarding before it
     is_wr = lambda n: n.kind in ('stmt', 'test') and cfgmod.node_contains(n, lambda x: isinstance(x, ast.Call) and call_name(x) == 'self.subwriter.write')  # noqa: E731
     wrs = [n for n in g.nodes if is_wr(n)]
@@ -384,6 +404,27 @@ def rule_wr_uniq(cx, rep, port):
     if not (len(wcall.args) == 1 and is_name(wcall.args[0], rec)):
         rep.violated(_key(c, 'write'), wcall, 'DISTINCT forwards `{}` instead of the record it received'.format(node_text(wcall)))
         return
+    # a record judged a duplicate by comparison with one remembered record (the previous one) instead of membership in the set of all
+    # records seen: only adjacent duplicates are found, and output is ordered by the sort key, not by the whole record
+    from .. import pathsem as _ps
+    wps = _ps.paths(fd)
+    if wps is not None:
+        for q in wps:
+            if q.kind != 'return' or not (q.value is not None and is_true(q.value)):
+                continue
+            if any(isinstance(x, ast.Call) and call_name(x) == 'self.subwriter.write' for e in q.calls + [t_ for t_, _ in q.conds] for x in ast.walk(e)):
+                continue
+            for atom, pol in _ps.atoms(q.conds):
+                if pol and isinstance(atom, ast.Compare) and len(atom.ops) == 1 and isinstance(atom.ops[0], (ast.Eq, ast.Is)):
+                    sides = [atom.left, atom.comparators[0]]
+                    mem = [x for x in sides if (dotted(x) or '').startswith('self.') and dotted(x) != 'self.seen']
+                    keyside = [x for x in sides if rec in names_in(x)]
+                    if mem and keyside:
+                        attr_ = dotted(mem[0])
+                        overwritten = any(dotted(t_) == attr_ and rec in names_in(v_) for q2 in wps for t_, v_ in q2.stores)
+                        if overwritten:
+                            rep.violated(_key(c, 'write'), atom, 'a record is dropped as a duplicate when it equals `{}`, the one record remembered from the previous call: duplicates that are not adjacent survive DISTINCT (records arrive ordered by the sort key at most, not by their whole content)'.format(attr_))
+                            return
     # membership test on the immutable image
     tests = [n for n in g.nodes if n.kind == 'test' and 'self.seen' in _dotted_in(n.ast)]
     if len(tests) != 1:
